@@ -570,6 +570,40 @@ static string handle(std::vector<string> const& w)
             return "bad-op";
         return vh::hexd(std::log(e));
     }
+    if (op == "bitop" && w.size() >= 4)
+    {
+        vecd a;
+        if (!parse_all(w, 2, w.size(), &a))
+            return "bad-op";
+        string const& o = w[1];
+        if (a.size() == 2)
+        {
+            if (o == "add") return vh::hexd(a[0] + a[1]);
+            if (o == "sub") return vh::hexd(a[0] - a[1]);
+            if (o == "mul") return vh::hexd(a[0] * a[1]);
+            if (o == "div") return vh::hexd(a[0] / a[1]);
+            if (o == "lt") return a[0] < a[1] ? "1" : "0";
+            if (o == "le") return a[0] <= a[1] ? "1" : "0";
+            if (o == "eq") return a[0] == a[1] ? "1" : "0";
+            return "bad-op";
+        }
+        if (a.size() == 3 && o == "fma")
+            return vh::hexd(std::fma(a[0], a[1], a[2]));
+        if (a.size() == 5 && o == "lerp")
+        {
+            // the real Interpolator<linear, linear>
+            LinearInterpolator<real_type> interp({a[0], a[1]}, {a[2], a[3]});
+            return vh::hexd(interp(a[4]));
+        }
+        return "bad-op";
+    }
+    if (op == "exp" && w.size() == 2)
+    {
+        double e;
+        if (!parse_dbl(w[1], &e))
+            return "bad-op";
+        return vh::hexd(std::exp(e));
+    }
     if (op == "xsgrid")
         return do_xsgrid(w);
     if (op == "gengrid")
